@@ -385,7 +385,7 @@ def run(ctx):
               "unordered end pairs incl. hairpins and self-links, both record "
               "forms, overlaps *,1M,2M (parallel links = same end pair with "
               "1M and 2M); complete product for <=3 links on <=2 segments and "
-              "<=2 links on 3 segments (thorough: <=3 links on 3 segments); "
+              "<=2 links on 3 segments; "
               "all sets of <=3 (thorough <=4) end pairs x form/overlap "
               "patterns; sequence variants seq / *+LN / seq+LN / mixed; "
               "decorations: header, comment, one C line per ordered segment "
@@ -416,13 +416,13 @@ def run(ctx):
       "of tests/testdata/gfa2_edges_classification.gfa",
       "histories bounded by the depths in coverage.bfs"]
   ctx.extra["reference_anchor"] = anchor_reference()
-  run_family(ctx, "gfa1", ge.family_gfa1(ctx.tier))
+  run_family(ctx, "gfa1", ge.family_gfa1(ctx.tier, full3=False))
   run_family(ctx, "gfa2_twins", ge.family_gfa2_twins(ctx.tier))
   run_family(ctx, "gfa2_mixed", ge.family_gfa2_mixed(ctx.tier))
   px = CtxProxy(ctx)
   plan = ([("c16.g1", 3), ("c16.g2", 3), ("c16.h1", 4), ("c16.h2", 4)]
           if ctx.quick else
-          [("c16.g1", 4), ("c16.g2", 4), ("c16.h1", 6), ("c16.h2", 6)])
+          [("c16.g1", 4), ("c16.g2", 4), ("c16.h1", 5), ("c16.h2", 5)])
   done = {}
   for name, d in plan:
     done[name] = explore.bfs(px, explore.SPECS[name], d)[0]
